@@ -2,11 +2,22 @@
 qutip_qip.transpiler.chain.to_chain_structure and QubitCircuit.adjacent_gates (gate lists are
 compared exactly), plus the direct statement of the property on the real code (indices in
 range, adjacency, pass-through, and equality of the unitary: dense matrices up to 7 qubits and
-an exact permutation-tracking normal form for every size)."""
-import itertools, re, time
+an exact permutation-tracking normal form for every size).
+
+Streams of the correspondence: every single handled gate on every ordered pair (exhaustive);
+SYSTEMATIC multi-gate circuits for every pair of every register (both orientations of the pair,
+repeated gates, the same pair under different names / arguments, exchange gates before and after
+controlled gates); HISTORIES of several calls in one process (orientations, setups, register sizes
+and the two APIs alternating; the same circuit object routed twice); conditioned gates; random
+circuits; a malformed stream.  A witness is one circuit or {"history": [circuit, ...]} (all calls in
+one process, in order); a failing witness is re-run in a FRESH interpreter and, if it only fails
+after earlier calls of this process, the shortest failing suffix of the call log becomes the
+witness (so that `./check C07 --replay` reproduces)."""
+import ast, itertools, json, os, re, subprocess, sys, time
 import numpy as np
 
-from vlib.core import PropertyCheck
+from vlib.core import PropertyCheck, TranslatorError
+from vlib import paths
 
 CTL = ("CNOT", "CSIGN")
 SWP = ("SWAP", "ISWAP", "SQRTISWAP", "SQRTSWAP", "BERKELEY", "SWAPalpha")
@@ -30,6 +41,64 @@ def _impl():
 def gd(name, controls=None, targets=None, arg=None, cc=None, ccv=None, raw=False):
     return {"name": name, "controls": controls, "targets": targets, "arg": arg, "cc": cc, "ccv": ccv,
             "raw": raw}
+
+
+# ----------------------------------------------------------------------------------------
+# T: which variant of the code is in the tree (fixes/C07-5.patch: the re-emitted gate keeps the
+# classical condition).  Read with `ast`; anything else is "not recognised".
+
+def source_variant(repo=None):
+    """-> True / False: do to_chain_structure and adjacent_gates hand the classical condition of the
+    routed gate to the gate they emit for it (`**_condition(gate)` at EVERY such call)?"""
+    repo = repo or paths.REPO
+    found = []
+    for rel, fname, is_site in (
+            ("src/qutip_qip/transpiler/chain.py", "to_chain_structure",
+             lambda n: isinstance(n.func, ast.Attribute) and n.func.attr == "add_gate"),
+            ("src/qutip_qip/circuit/circuit.py", "adjacent_gates",
+             lambda n: isinstance(n.func, ast.Name) and n.func.id == "Gate")):
+        path = os.path.join(repo, rel)
+        try:
+            tree = ast.parse(open(path).read())
+        except Exception as e:
+            raise TranslatorError(f"{rel}: {type(e).__name__}: {e}")
+        fns = [n for n in ast.walk(tree) if isinstance(n, ast.FunctionDef) and n.name == fname]
+        if len(fns) != 1:
+            raise TranslatorError(f"{rel}: function {fname} not found")
+        sites = []
+        for n in ast.walk(fns[0]):
+            if isinstance(n, ast.Call) and is_site(n) and n.args and isinstance(n.args[0], ast.Attribute) \
+                    and n.args[0].attr == "name" and isinstance(n.args[0].value, ast.Name):
+                var = n.args[0].value.id
+                named = {k.arg for k in n.keywords if k.arg}
+                star = [k.value for k in n.keywords if k.arg is None]
+                keeps = any(isinstance(v, ast.Call) and isinstance(v.func, ast.Name) and v.func.id == "_condition"
+                            and len(v.args) == 1 and isinstance(v.args[0], ast.Name) and v.args[0].id == var
+                            for v in star)
+                if {"classical_controls", "classical_control_value"} & named or (star and not keeps):
+                    raise TranslatorError(f"{rel}:{n.lineno}: unrecognised way of passing a classical condition")
+                sites.append(keeps)
+        if not sites:
+            raise TranslatorError(f"{rel}: no call re-emitting the routed gate found in {fname}")
+        if any(sites) and not all(sites):
+            raise TranslatorError(f"{rel}: {fname} keeps the classical condition at {sum(sites)} of {len(sites)} "
+                                  "calls that re-emit the routed gate")
+        found.append(all(sites))
+    if found[0] != found[1]:
+        raise TranslatorError("to_chain_structure and adjacent_gates treat the classical condition differently")
+    return found[0]
+
+
+_CC = {"v": None}
+
+
+def variant_cc():
+    if _CC["v"] is None:
+        try:
+            _CC["v"] = bool(source_variant())
+        except TranslatorError:
+            _CC["v"] = False
+    return _CC["v"]
 
 
 def build(w):
@@ -91,8 +160,13 @@ class Tags:
         return f"{name}/{cs}/{ts}/{a}/{x}"
 
 
-def run_impl(qc, api, setup):
+CALLS = []      # every call of the router made by this process, in order (circuit witnesses)
+
+
+def run_impl(qc, api, setup, w=None):
     _, _, _, to_chain_structure = _impl()
+    if w is not None:
+        CALLS.append({k: v for k, v in w.items() if not k.startswith("_")})
     try:
         r = to_chain_structure(qc, setup) if api == "chain" else qc.adjacent_gates()
         return "ok", r
@@ -108,6 +182,8 @@ def run_impl(qc, api, setup):
 
 def request(tags, w, variant=None):
     gs = ";".join(tags.gate(g) for g in w["_qc"].gates)
+    if variant is None and variant_cc():
+        variant = "11111"
     v = "" if variant is None else f" variant={variant}"
     if w["api"] == "chain":
         return f"route n={w['N']} setup={w['setup']}{v} gates={gs}"
@@ -152,30 +228,63 @@ def normal_form(N, gates):
     return rec, at
 
 
+def conditioned_handled(w):
+    """does the circuit contain a gate the router rewrites that carries a classical condition"""
+    return any("meas" not in g and g["name"] in HANDLED and g.get("cc") is not None for g in w["gates"])
+
+
+def propagators(qc, cbit_values):
+    """the operator of a measurement-free circuit for each given classical state"""
+    from qutip import qeye
+    from qutip_qip.circuit import CircuitSimulator
+    out = []
+    for cb in cbit_values:
+        sim = CircuitSimulator(qc)
+        out.append(sim.run(qeye(qc.dims), cbits=list(cb)).get_final_states()[0].full())
+    return out
+
+
 def check_property(w):
-    """(fails, detail) for one witness: a circuit of well-formed in-range gates."""
+    """(fails, detail) for a witness: one circuit, or a history of calls made in one process, in order
+    (`"reuse": true` = the circuit OBJECT of the previous call is routed again)."""
+    if "history" not in w:
+        return check_single(w)[:2]
+    prev = None
+    n = len(w["history"])
+    for k, c in enumerate(w["history"]):
+        f, d, prev = check_single(c, prev if c.get("reuse") else None)
+        if f:
+            return True, (f"call {k + 1} of {n} made in one process "
+                          f"({c['api']}, N={c['N']}, setup={c['setup']}): " + d)
+    return False, f"all {n} calls meet the property"
+
+
+def check_single(w, qc=None):
+    """(fails, detail, circuit object) for one circuit of well-formed in-range gates."""
     _QubitCircuit, Measurement, _Gate, _ = _impl()
     N, setup, api = w["N"], w["setup"], w["api"]
-    qc, exc = build(w)
+    exc = None
     if qc is None:
-        return False, f"not constructible ({exc})"
+        qc, exc = build(w)
+    if qc is None:
+        return False, f"not constructible ({exc})", None
     for g in qc.gates:
         qs = qubits_of(g)
         if any(not (0 <= q < N) for q in qs) or len(set(qs)) != len(qs):
-            return False, "outside the property's domain (qubit out of range or repeated)"
+            return False, "outside the property's domain (qubit out of range or repeated)", qc
         if not isinstance(g, Measurement) and g.name in HANDLED and (
                 len(qs) != 2 or len(g.targets) != (1 if g.name in CTL else 2)):
-            return False, "outside the property's domain (malformed handled gate)"
+            return False, "outside the property's domain (malformed handled gate)", qc
     if setup not in ("linear", "circular"):
-        return False, "outside the property's domain (setup)"
-    st, r = run_impl(qc, api, setup if api == "chain" else None)
+        return False, "outside the property's domain (setup)", qc
+    st, r = run_impl(qc, api, setup if api == "chain" else None, w)
     unhandled = [g for g in qc.gates if isinstance(g, Measurement) or g.name not in HANDLED]
     if api == "adjacent":
         setup = "linear"
         if unhandled:
-            return (st != "err notimpl"), f"adjacent_gates on an unhandled gate: {st}"
+            return (st != "err notimpl"), f"adjacent_gates on an unhandled gate: {st}", qc
     if st != "ok":
-        return True, f"routing raised ({st})"
+        return True, f"routing raised ({st})", qc
     out = r.gates
     # (i) indices, (ii) adjacency of every gate the router emitted
     passed = []
@@ -185,12 +294,12 @@ def check_property(w):
             continue
         qs = qubits_of(g)
         if any(not (0 <= q < N) for q in qs):
-            return True, f"qubit index out of range in {g.name}{qs} (N={N})"
+            return True, f"qubit index out of range in {g.name}{qs} (N={N})", qc
         if len(qs) != 2 or not adjacent(setup, N, qs[0], qs[1]):
-            return True, f"{g.name}{qs} does not act on neighbours of the {setup} chain (N={N})"
+            return True, f"{g.name}{qs} does not act on neighbours of the {setup} chain (N={N})", qc
     # (iv) pass-through unchanged and in order
     if len(passed) != len(unhandled) or any(a is not b and vars(a) != vars(b) for a, b in zip(passed, unhandled)):
-        return True, "unhandled gates are not passed through unchanged and in order"
+        return True, "unhandled gates are not passed through unchanged and in order", qc
     # (v) same operation: exact normal form for every N
     nf0, nf1 = normal_form(N, qc.gates), normal_form(N, out)
     if nf0 != nf1:
@@ -199,22 +308,38 @@ def check_property(w):
             if a != b:
                 what = f"operation {k} on logical qubits is {b} instead of {a}"
                 break
-        return True, "routed circuit is not the input circuit (exact permutation tracking): " + what
+        return True, "routed circuit is not the input circuit (exact permutation tracking): " + what, qc
     # dense unitaries up to 7 qubits
-    unitary = all(not isinstance(g, Measurement) and g.classical_controls is None for g in qc.gates)
+    nomeas = all(not isinstance(g, Measurement) for g in qc.gates)
+    unitary = nomeas and all(g.classical_controls is None for g in qc.gates)
     if unitary and N <= 7:
         try:
             U0 = qc.compute_unitary().full()
         except Exception as e:
-            return False, f"input circuit has no unitary ({type(e).__name__})"
+            return False, f"input circuit has no unitary ({type(e).__name__})", qc
         try:
             U1 = r.compute_unitary().full()
         except Exception as e:
-            return True, f"routed circuit has no unitary ({type(e).__name__}: {e})"
+            return True, f"routed circuit has no unitary ({type(e).__name__}: {e})", qc
         d = float(np.abs(U0 - U1).max())
         if d > 1e-9:
-            return True, f"unitary of the routed circuit differs by {d:.3g}"
-    return False, "routed circuit meets the property"
+            return True, f"unitary of the routed circuit differs by {d:.3g}", qc
+    elif nomeas and N <= 5:
+        # conditioned gates: the operator for every state of the (three) classical bits
+        cbs = list(itertools.product((0, 1), repeat=3))
+        try:
+            Us0 = propagators(qc, cbs)
+        except Exception as e:
+            return False, f"input circuit cannot be evaluated ({type(e).__name__})", qc
+        try:
+            Us1 = propagators(r, cbs)
+        except Exception as e:
+            return True, f"routed circuit cannot be evaluated ({type(e).__name__}: {e})", qc
+        for cb, U0, U1 in zip(cbs, Us0, Us1):
+            d = float(np.abs(U0 - U1).max())
+            if d > 1e-9:
+                return True, f"with classical bits {list(cb)} the operator of the routed circuit differs by {d:.3g}", qc
+    return False, "routed circuit meets the property", qc
 
 
 def single(N, setup, name, a, b, api="chain"):
@@ -304,79 +429,294 @@ def malformed_circuit(rng):
     return {"N": N, "setup": setup, "api": api, "gates": gates}
 
 
+# ----------------------------------------------------------------------------------------
+# systematic multi-gate circuits and histories
+
+ALPHA2 = 0.4375         # a second SWAPalpha argument (dyadic)
+RX = gd("RX", targets=[0], arg=0.25)
+
+
+def h2(name, a, b, alt=False):
+    """the handled gate `name` on the ordered pair (a, b): control a / target b, resp. targets [a, b]"""
+    if name in CTL:
+        return gd(name, controls=[a], targets=[b])
+    return gd(name, targets=[a, b], arg=(ALPHA2 if alt else ALPHA) if name == "SWAPalpha" else None)
+
+
+def systematic_multi(N, full=False):
+    """(kind, gate list) for every unordered pair a < b of an N-qubit register: circuits that contain the same
+    pair more than once."""
+    swp3 = SWP if full else ("SWAP", "ISWAP", "SWAPalpha")
+    for a, b in itertools.combinations(range(N), 2):
+        ors = ((a, b), (b, a))
+        # both orientations / repeats / both controlled names
+        for n1 in CTL:
+            for n2 in CTL:
+                for o1 in ors:
+                    for o2 in ors:
+                        kind = ("both-orientations" if o1 != o2 else "repeat") + ("" if n1 == n2 else "+names")
+                        yield kind, [h2(n1, *o1), h2(n2, *o2)]
+        for o1 in ors:
+            o2 = (o1[1], o1[0])
+            yield "both-orientations+between", [h2("CNOT", *o1), dict(RX, targets=[a]), h2("CNOT", *o2)]
+            yield "both-orientations+thrice", [h2("CNOT", *o1), h2("CNOT", *o2), h2("CNOT", *o1)]
+        # exchange gates: repeated, targets listed the other way round, another argument, another name
+        for k, n in enumerate(SWP):
+            yield "repeat", [h2(n, a, b), h2(n, a, b)]
+            yield "repeat+reversed-targets", [h2(n, a, b), h2(n, b, a)]
+            others = [m for m in SWP if m != n] if full else [SWP[(k + 1) % len(SWP)]]
+            for m in others:
+                yield "same-pair+names", [h2(n, a, b), h2(m, b, a)]
+        yield "same-pair+args", [h2("SWAPalpha", a, b), h2("SWAPalpha", a, b, alt=True)]
+        yield "same-pair+args", [h2("SWAPalpha", b, a, alt=True), h2("SWAPalpha", a, b)]
+        # exchange gates before / after controlled gates on the same pair
+        for c in CTL:
+            for o in ors:
+                for n in swp3:
+                    yield "exchange-before-controlled", [h2(n, a, b), h2(c, *o)]
+                    yield "controlled-before-exchange", [h2(c, *o), h2(n, b, a)]
+
+
+def circ(N, setup, gates, api="chain", reuse=False):
+    w = {"N": N, "setup": setup, "api": api, "gates": gates}
+    if reuse:
+        w["reuse"] = True
+    return w
+
+
+def systematic_histories(N):
+    """(kind, [circuit, ...]) — several calls made one after the other in ONE process, for every pair a < b"""
+    for a, b in itertools.combinations(range(N), 2):
+        ab, ba = [h2("CNOT", a, b)], [h2("CNOT", b, a)]
+        for setup in ("circular", "linear"):
+            yield "orientations", [circ(N, setup, ab), circ(N, setup, ba), circ(N, setup, ab)]
+            yield "orientations", [circ(N, setup, ba), circ(N, setup, ab)]
+        yield "setups", [circ(N, "linear", ab), circ(N, "circular", ab), circ(N, "linear", ab)]
+        yield "setups", [circ(N, "circular", ba), circ(N, "linear", ba), circ(N, "ring", ba), circ(N, "circular", ba)]
+        yield "setups", [circ(N, "circular", [h2("ISWAP", a, b)]), circ(N, "linear", [h2("ISWAP", a, b)]),
+                         circ(N, "circular", [h2("SWAP", b, a)])]
+        yield "sizes", [circ(N, "circular", ab), circ(N + 1, "circular", ab), circ(N + 2, "circular", ba),
+                        circ(N, "circular", ab)]
+        yield "apis", [circ(N, "linear", ab, api="adjacent"), circ(N, "linear", ba), circ(N, "linear", ba, api="adjacent"),
+                       circ(N, "circular", ab)]
+        two = [h2("CNOT", a, b), h2("ISWAP", b, a)]
+        yield "same-object-twice", [circ(N, "circular", two), circ(N, "circular", two, reuse=True),
+                                    circ(N, "linear", two)]
+        yield "names", [circ(N, "circular", [h2("CSIGN", a, b)]), circ(N, "circular", ab),
+                        circ(N, "circular", [h2("SWAPalpha", a, b)]), circ(N, "circular", [h2("SWAPalpha", a, b, alt=True)])]
+
+
+def conditioned_circuits(N):
+    """(kind, gate list): handled gates carrying a classical condition, alone and fed by a measurement"""
+    for a, b in itertools.permutations(range(N), 2):
+        for name in ("CNOT", "CSIGN", "SWAP", "ISWAP", "SWAPalpha"):
+            g = dict(h2(name, a, b), cc=[1], ccv=1)
+            yield "conditioned", [g]
+        g2 = dict(h2("CNOT", a, b), cc=[0, 2], ccv=2)
+        yield "conditioned-2bits", [g2, h2("CNOT", a, b)]
+        if a < b:
+            yield "feed-forward", [{"meas": "M0", "targets": [a], "cs": 1}, dict(h2("CNOT", b, a), cc=[1], ccv=1),
+                                   dict(h2("ISWAP", a, b), cc=[1], ccv=0)]
+
+
+def fresh_fails(w, timeout=300):
+    """check_property(w) in a FRESH interpreter (same tree, nothing routed before) -> (fails | None, detail)"""
+    code = ("import sys, json; from props import c07; w = json.load(sys.stdin); "
+            "print('\\n@@' + json.dumps(list(c07.check_property(w))))")
+    try:
+        r = subprocess.run([sys.executable, "-W", "ignore", "-c", code], input=json.dumps(w), capture_output=True,
+                           text=True, env=dict(os.environ), timeout=timeout)
+        line = [ln for ln in r.stdout.splitlines() if ln.startswith("@@")][-1]
+        f, d = json.loads(line[2:])
+        return bool(f), d
+    except Exception as e:
+        return None, f"fresh interpreter: {type(e).__name__}"
+
+
+def reproducible(w, ncalls, budget=14):
+    """A witness that failed in this process: make it fail in a fresh interpreter.  If it does not fail on its
+    own, the calls made before it matter: return the shortest suffix of the call log (ending with the witness)
+    that fails when replayed from scratch, with single calls dropped greedily."""
+    f, _ = fresh_fails(w)
+    if f or f is None:
+        return w
+    own = w["history"] if "history" in w else [w]
+    log = CALLS[:ncalls]
+    # the log ends with the calls of the witness itself
+    base = log[:len(log) - len(own)] if log[len(log) - len(own):] == [
+        {k: v for k, v in c.items() if not k.startswith("_")} for c in own] else log
+    k, found, used = 1, None, 1
+    while used < budget:
+        pre = base[-k:]
+        cand = {"history": pre + own}
+        f, _ = fresh_fails(cand)
+        used += 1
+        if f:
+            found = pre
+            break
+        if k >= len(base):
+            break
+        k = min(2 * k, len(base)) if k < 4096 else len(base)
+    if found is None:
+        return w
+    # drop calls that are not needed (front to back), within the budget
+    i = 0
+    while i < len(found) and used < budget + 10 and len(found) > 1:
+        trial = found[:i] + found[i + 1:]
+        f, _ = fresh_fails({"history": trial + own})
+        used += 1
+        if f:
+            found = trial
+        else:
+            i += 1
+    return {"history": found + own}
+
+
 class C07(PropertyCheck):
     id = "C07"
     lean_modules = ["QipVerif.Props.C07"]
     drivers = ["drv_route"]
     theorems = ["QipVerif.C07." + t for t in (
-        "route_in_range", "route_adjacent", "route_shape_ctl", "route_shape_swp", "route_passthrough",
+        "route_in_range", "route_adjacent", "route_shape_ctl", "route_shape_swp", "route_other_setup", "route_passthrough",
         "route_concat", "route_append", "route_total", "circuit_passthrough_order", "circuit_in_range",
-        "circuit_adjacent", "route_den_gate", "route_den", "adjacent_gates_eq_linear",
+        "circuit_adjacent", "route_den_gate", "route_den", "route_den_cond", "condition_irrelevant_plain",
+        "adjacent_gates_eq_linear",
         "adjacent_gates_refuses_measurement", "swapLaws_C", "swapLaws_C_full", "route_den_gate_C", "route_den_C",
+        "route_den_cond_C", "C07_counterexample_condition_dropped",
         "C07_counterexample_range_old", "C07_counterexample_roles_old",
         "C07_counterexample_arg_old", "C07_counterexample_meas_old")]
     technique = ("Lean 4 proof (closed form of the routing loop by induction, permutation tracking, monoid-level "
-                 "conjugation argument) + exhaustive model/implementation correspondence on gate lists")
+                 "conjugation argument, classical conditions as a valuation) + exhaustive and systematic "
+                 "model/implementation correspondence on gate lists, incl. histories of calls in one process")
     level_text = ("Lean 4 theorems about the model of to_chain_structure / adjacent_gates with the repairs "
-                  "fixes/C07-1..4 applied, for every register size N, both topologies, every ordered pair of distinct "
-                  "in-range qubits and every handled gate name (no bound): all emitted indices < N; every emitted gate is "
-                  "a two-qubit gate on neighbours (or the wrap pair of a ring); the output is S ++ [G] ++ reverse(S) with S "
-                  "SWAPs that move control to G's control and target to G's target; unhandled gates pass through "
-                  "unchanged and in order, circuits are routed gate by gate; and over any monoid with the single "
-                  "hypothesis SwapLaws the routed circuit has the same product. The code as found violates the property "
-                  "(four counter-example theorems, each confirmed on the real code). The model is tied to the code by an "
-                  "exhaustive comparison of gate lists for N <= 14 (quick) / 40 (thorough).")
-    level_note = ("Trusted: Lean kernel (axioms propext, Classical.choice, Quot.sound); the harness py/props/c07.py; the "
-                  "instantiation of SwapLaws for the complex gate matrices is Lemmas/RouteC.lean (route_den_C: no hypothesis about "
-                  "matrices left).")
+                  "fixes/C07-1..4 applied, for every register size N, EVERY setup string (linear: open chain; circular: "
+                  "ring; any other string: ring, always through the wrap-around pair - route_other_setup), every ordered "
+                  "pair of distinct in-range qubits and every handled gate name (no bound), and for both shapes of the "
+                  "source with respect to fixes/C07-5 (classical condition of the routed gate dropped / kept; the harness "
+                  "reads the shape from the source): all emitted indices < N; every emitted gate is a two-qubit gate on "
+                  "neighbours (or the wrap pair of a ring); the output is S ++ [G] ++ reverse(S) with S SWAPs that move "
+                  "control to G's control and target to G's target; unhandled gates pass through unchanged and in order; "
+                  "circuits are routed gate by gate with no state between gates or calls (route_concat, for every "
+                  "variant); the routed circuit is the same operator over C (route_den_C: exact library matrices, no "
+                  "matrix hypothesis). With fixes/C07-5 this holds for every classical state, conditioned gates included "
+                  "(route_den_cond_C); without it a conditioned handled gate is re-emitted unconditionally "
+                  "(C07_counterexample_condition_dropped, confirmed on the real code) and route_den_C excludes such "
+                  "gates. The code as found at the pinned commit violates the property in four more ways (counter-example "
+                  "theorems, repaired by fixes/C07-1..4). The model is tied to the code by an exhaustive comparison of "
+                  "gate lists for N <= 14 (quick) / 40 (thorough), systematic multi-gate circuits for every pair of every "
+                  "register up to 9 (12) qubits, and histories of calls in one process.")
+    level_note = ("Trusted: Lean kernel (axioms propext, Classical.choice, Quot.sound); the harness py/props/c07.py incl. "
+                  "its ast reader of the source shape (source_variant); the instantiation of SwapLaws for the complex gate "
+                  "matrices is Lemmas/RouteC.lean (route_den_C: no hypothesis about matrices left).")
     trusted_base = [
         "Lean 4.33 kernel; axioms propext, Classical.choice, Quot.sound",
-        "py/props/c07.py (harness: gate objects -> (name, controls, targets, arg label, extra label))",
+        "py/props/c07.py (harness: gate objects -> (name, controls, targets, arg label, condition label); "
+        "source_variant: ast reader deciding whether the routed gate keeps its classical condition)",
     ]
     assumptions = [
-        "SwapLaws (Lemmas/RouteDen.lean): SWAP(i,j)^2 = 1, SWAP(i,j) G SWAP(i,j) = G relabelled by (i j) for two-qubit "
-        "gates on distinct in-range qubits, exchange-type gates are symmetric in their two targets",
-        "handled input gates are well-formed (one control + one target, resp. two targets, distinct, in range) and carry "
-        "no classical controls (the router does not copy them); other inputs are covered by the correspondence only",
+        "handled input gates are well-formed (one control + one target, resp. two targets, distinct, in range); CNOT/CSIGN "
+        "carry no arg_value; other inputs are covered by the correspondence only",
+        "while the source drops classical conditions (fixes/C07-5 not applied): handled gates carry no classical condition "
+        "(C07_counterexample_condition_dropped shows the clause fails otherwise; recorded as a finding)",
+        "a classical condition is modelled as a label that holds or does not hold (condInterp): the theorem is per "
+        "classical state; measurements are passed through and have no operator",
     ]
-    rule = ("case = (N, setup, api, gate list); exhaustive stream: one handled gate on every ordered pair of distinct "
-            "qubits; non-trivial = at least one handled gate on non-neighbouring qubits; malformed stream counted "
-            "separately")
+    rule = ("case = (N, setup, api, gate list) or a history of such calls in one process; exhaustive stream: one handled "
+            "gate on every ordered pair of distinct qubits; systematic streams: for every pair of every register the "
+            "circuits / histories that repeat the pair (orientations, names, arguments, setups, sizes, APIs); non-trivial = "
+            "at least one handled gate on non-neighbouring qubits; malformed stream counted separately")
 
     # ---------------------------------------------------------------------------------
-    def _compare(self, ctx, res, ws, tags_of):
-        """Run model and implementation on the witnesses `ws` (those that can be constructed)."""
-        tags = Tags()
-        live, lines = [], []
-        for w in ws:
-            qc, exc = build(w)
-            pub = {k: v for k, v in w.items() if not k.startswith("_")}
-            if qc is None:
-                # the constructor refused: nothing reaches the router
-                res.case(pub, nontrivial=False, tags=["constructor-refuses=" + exc])
+    def regenerate(self, ctx):
+        _CC["v"] = None
+        _CC["v"] = bool(source_variant())        # TranslatorError if the source is not recognised
+        ctx.log("source shape: the routed gate %s its classical condition (fixes/C07-5 %s)"
+                % (("keeps", "applied") if _CC["v"] else ("drops", "not applied")))
+        return []
+
+    # ---------------------------------------------------------------------------------
+    def _diagnose(self, ctx, tags, w, impl):
+        for v in ["".join(b) for b in itertools.product("01", repeat=5)]:
+            if v in ("11110", "11111"):
                 continue
-            w["_qc"] = qc
-            live.append(w)
-            lines.append(request(tags, w))
+            if ctx.driver("drv_route").run([request(tags, w, v)])[0] == impl:
+                return (f"; the implementation behaves like model variant {v} (bits: C07-1 mod-N fix, C07-2 role fix, "
+                        "C07-3 arg_value fix, C07-4 measurement fix, C07-5 condition kept)")
+        return ""
+
+    def _compare(self, ctx, res, ws, tags_of, minimise=True):
+        """Run model and implementation on the witnesses `ws` (those that can be constructed).  A witness is a
+        circuit or a history {"history": [circuit, ...]}: the calls are made in this order, in this process."""
+        tags = Tags()
+        units = []                       # (witness, [call, ...]) ; call = circuit dict with _qc
+        lines = []
+        for w in ws:
+            calls = w["history"] if "history" in w else [w]
+            live, prev, exc = [], None, None
+            for c in calls:
+                if c.get("reuse") and prev is not None:
+                    qc = prev
+                else:
+                    qc, exc = build(c)
+                if qc is None:
+                    break
+                c["_qc"] = prev = qc
+                live.append(c)
+            pub = json.loads(json.dumps(w, default=lambda o: None)) if "history" in w else \
+                {k: v for k, v in w.items() if not k.startswith("_")}
+            if "history" in w:
+                pub = {"history": [{k: v for k, v in c.items() if not k.startswith("_")} for c in calls]}
+            if len(live) < len(calls):
+                # the constructor refused: nothing reaches the router
+                res.case(pub, nontrivial=False, tags=["constructor-refuses=" + str(exc)])
+                for c in calls:
+                    c.pop("_qc", None)
+                continue
+            units.append((w, pub, live))
+            for c in live:
+                lines.append(request(tags, c))
         outs = ctx.driver("drv_route").run(lines)
-        for w, line, o in zip(live, lines, outs):
-            qc = w.pop("_qc")
-            pub = dict(w)
-            st, r = run_impl(qc, w["api"], w["setup"])
-            impl = st if r is None else "ok " + ";".join(tags.gate(g) for g in r.gates)
-            res.case(pub, nontrivial=tags_of(w)[0], tags=tags_of(w)[1] + ["verdict=" + impl.split(" ")[0] + (
-                " " + impl.split(" ")[1] if impl.startswith("err") else "")])
-            if impl != o:
-                what = "routed gate lists differ"
-                if len(res.disagreements) < 3:
-                    w["_qc"] = qc
-                    for v in ["0000"] + ["".join(b) for b in itertools.product("01", repeat=4)][1:-1]:
-                        if ctx.driver("drv_route").run([request(tags, w, v)])[0] == impl:
-                            what += (f"; the implementation behaves like model variant {v} "
-                                     "(bits: C07-1 mod-N fix, C07-2 role fix, C07-3 arg_value fix, C07-4 measurement fix)")
-                            break
-                    w.pop("_qc")
-                res.disagree(pub, o, impl, what, pub)
+        pos = 0
+        for w, pub, live in units:
+            nt, tg = tags_of(w)
+            first_bad = None
+            verdicts = []
+            for k, c in enumerate(live):
+                o, line = outs[pos], lines[pos]
+                pos += 1
+                qc = c["_qc"]
+                st, r = run_impl(qc, c["api"], c["setup"], c)
+                ncalls = len(CALLS)
+                impl = st if r is None else "ok " + ";".join(tags.gate(g) for g in r.gates)
+                verdicts.append(impl.split(" ")[0] + (" " + impl.split(" ")[1] if impl.startswith("err") else ""))
+                what = None
+                if impl != o:
+                    what = "routed gate lists differ"
+                elif request(tags, c) != line:
+                    what, impl = "the router changed its input circuit", "input afterwards: " + request(tags, c)
+                if what is not None and first_bad is None:
+                    cpub = {kk: v for kk, v in c.items() if not kk.startswith("_")}
+                    wit = cpub if "history" not in w else {"history": pub["history"][:k + 1]}
+                    if len(res.disagreements) < 3:
+                        if impl != o and r is not None or st.startswith("err"):
+                            what += self._diagnose(ctx, tags, c, impl)
+                        if minimise:
+                            try:
+                                f0, _ = check_property(wit) if "history" in wit else (None, None)
+                                wit2 = reproducible(wit, ncalls)
+                                if wit2 is not wit:
+                                    what += ("; fails only after earlier calls of the same process: witness = the "
+                                             f"shortest failing call sequence ({len(wit2['history'])} calls)")
+                                wit = wit2
+                            except Exception as e:
+                                what += f"; (fresh-interpreter minimisation failed: {type(e).__name__})"
+                    first_bad = (o, impl, what, wit, cpub)
+            res.case(pub, nontrivial=nt, tags=tg + ["verdict=" + verdicts[-1]])
+            if first_bad is not None:
+                o, impl, what, wit, cpub = first_bad
+                res.disagree(pub if "history" not in w else {"history_call": cpub, "calls": len(live)}, o, impl, what, wit)
+            for c in live:
+                c.pop("_qc", None)
 
     @staticmethod
     def _tags_single(w):
@@ -389,22 +729,26 @@ class C07(PropertyCheck):
         return d > 1, [f"N={N}", f"setup={w['setup']}", f"gate={g['name']}", f"path={path}-{par}"]
 
     @staticmethod
+    def _far(w):
+        for g in w["gates"]:
+            if "meas" not in g and g["name"] in HANDLED and not g.get("raw"):
+                qs = (g["controls"] or []) + (g["targets"] or [])
+                if len(qs) == 2 and abs(qs[0] - qs[1]) > 1:
+                    return True
+        return False
+
+    @staticmethod
     def _tags_multi(w):
-        far = False
         kinds = set()
         for g in w["gates"]:
             if "meas" in g:
                 kinds.add("meas")
-                continue
-            if g["name"] in HANDLED and not g.get("raw"):
-                qs = (g["controls"] or []) + (g["targets"] or [])
-                if len(qs) == 2 and abs(qs[0] - qs[1]) > 1:
-                    far = True
+            elif g["name"] in HANDLED and not g.get("raw"):
                 kinds.add("handled")
             else:
                 kinds.add("unhandled")
-        return far, [f"api={w['api']}", f"len={len(w['gates'])}", "kinds=" + "+".join(sorted(kinds)),
-                     f"setup={w['setup']}"]
+        return C07._far(w), [f"api={w['api']}", f"len={len(w['gates'])}", "kinds=" + "+".join(sorted(kinds)),
+                             f"setup={w['setup']}"]
 
     def correspondence(self, ctx, res):
         rng = ctx.rng
@@ -416,11 +760,52 @@ class C07(PropertyCheck):
             if N <= 10:
                 ws += [single(N, "linear", name, a, b, api="adjacent") for name in HANDLED
                        for a, b in itertools.permutations(range(N), 2)]
+            if N <= 8:
+                # any other setup string
+                ws += [single(N, "ring", name, a, b) for name in ("CNOT", "CSIGN", "ISWAP", "SWAPalpha")
+                       for a, b in itertools.permutations(range(N), 2)]
             self._compare(ctx, res, ws, self._tags_single)
         res.exhaustive = True
         res.notes.append(f"exhaustive over all (N <= {maxN}, setup in linear/circular, gate in {'/'.join(HANDLED)}, "
-                         "ordered pair of distinct qubits) for to_chain_structure, and N <= 10 for adjacent_gates; "
-                         "gate lists compared exactly")
+                         "ordered pair of distinct qubits) for to_chain_structure, N <= 10 for adjacent_gates, N <= 8 for "
+                         "another setup string; gate lists compared exactly")
+        # systematic multi-gate circuits: every pair of every register, both topologies
+        maxM = 12 if ctx.thorough else 9
+        n_sys = 0
+        for N in range(2, maxM + 1):
+            ws = []
+            for kind, gates in systematic_multi(N, full=ctx.thorough):
+                for setup in ("linear", "circular"):
+                    ws.append(dict(circ(N, setup, gates), _kind=kind))
+                if N <= 6:
+                    ws.append(dict(circ(N, "linear", gates, api="adjacent"), _kind=kind))
+            n_sys += len(ws)
+            self._compare(ctx, res, ws, lambda w: (self._far(w), ["multi", "multi=" + w["_kind"], f"api={w['api']}",
+                                                                  f"setup={w['setup']}"]))
+        # histories: several calls in one process
+        n_hist = 0
+        for N in range(2, maxM + 1):
+            ws = [{"history": h, "_kind": kind} for kind, h in systematic_histories(N)]
+            n_hist += len(ws)
+            self._compare(ctx, res, ws, lambda w: (any(self._far(c) for c in w["history"]),
+                                                   ["history", "history=" + w["_kind"], f"calls={len(w['history'])}"]))
+        # conditioned gates
+        n_cond = 0
+        for N in range(2, (8 if ctx.thorough else 6) + 1):
+            ws = []
+            for kind, gates in conditioned_circuits(N):
+                for setup in ("linear", "circular"):
+                    ws.append(dict(circ(N, setup, gates), _kind=kind))
+                if N <= 4 and kind != "feed-forward":
+                    ws.append(dict(circ(N, "linear", gates, api="adjacent"), _kind=kind))
+            n_cond += len(ws)
+            self._compare(ctx, res, ws, lambda w: (True, ["conditioned", "conditioned=" + w["_kind"], f"api={w['api']}"]))
+        res.notes.append(f"systematic: {n_sys} multi-gate circuits (every pair a<b of every register N <= {maxM}, both "
+                         "topologies, adjacent_gates for N <= 6: both orientations, repeats, same pair under other names / "
+                         f"arguments, exchange gates before/after controlled gates), {n_hist} histories of 2-4 calls in one "
+                         f"process (orientations, setups, sizes, APIs, same object twice), {n_cond} circuits with "
+                         "conditioned handled gates; model variant for the classical condition read from the source: "
+                         + ("kept (fixes/C07-5 applied)" if variant_cc() else "dropped (fixes/C07-5 not applied)"))
         n_multi = 6000 if ctx.thorough else 1200
         ws = [random_circuit(rng, maxN=24 if ctx.thorough else 12) for _ in range(n_multi)]
         self._compare(ctx, res, ws, self._tags_multi)
@@ -432,6 +817,21 @@ class C07(PropertyCheck):
     def oracle_replay(self, ctx, w):
         return check_property(w)
 
+    def finding_matches(self, witness, finding):
+        if finding.get("class") == "conditioned-handled-gate":
+            cs = witness["history"] if "history" in witness else [witness]
+            return any(conditioned_handled(c) for c in cs)
+        return witness == finding.get("witness")
+
+    @staticmethod
+    def _in_theorem_class(w):
+        """While the source drops classical conditions the theorems exclude conditioned handled gates
+        (route_den_C: hx); the finding is recorded and replayed on its own."""
+        if variant_cc():
+            return True
+        cs = w["history"] if "history" in w else [w]
+        return not any(conditioned_handled(c) for c in cs)
+
     def _sweep(self, maxN, names):
         for N in range(2, maxN + 1):
             for setup in ("linear", "circular"):
@@ -439,19 +839,47 @@ class C07(PropertyCheck):
                     for a, b in itertools.permutations(range(N), 2):
                         yield single(N, setup, name, a, b)
 
+    def _sweep_multi(self, maxN, hist_maxN):
+        for N in range(2, maxN + 1):
+            for a, b in itertools.combinations(range(N), 2):
+                if b - a < 2:
+                    continue
+                for setup in ("circular", "linear"):
+                    yield circ(N, setup, [h2("CNOT", a, b), h2("CNOT", b, a)])
+                    yield circ(N, setup, [h2("CNOT", b, a), dict(RX, targets=[a]), h2("CNOT", a, b)])
+                    yield circ(N, setup, [h2("ISWAP", a, b), h2("CNOT", b, a), h2("SWAPalpha", b, a), h2("CNOT", a, b)])
+        for N in range(3, hist_maxN + 1):
+            for kind, h in systematic_histories(N):
+                if kind in ("orientations", "setups", "sizes", "names"):
+                    yield {"history": [c for c in h if c["setup"] in ("linear", "circular")]}
+        for N in range(2, 5):
+            for kind, gates in conditioned_circuits(N):
+                for setup in ("linear", "circular"):
+                    yield circ(N, setup, gates)
+
     def oracle_search(self, ctx, budget_s):
         t0 = time.time()
-        for w in self._sweep(16, HANDLED):
+
+        def hit(w):
+            n0 = len(CALLS)
             f, d = check_property(w)
             if f:
-                yield w, d
+                return reproducible(w, len(CALLS)), d
+            return None
+
+        for w in itertools.chain(self._sweep_multi(8, 7), self._sweep(16, HANDLED)):
+            if not self._in_theorem_class(w):
+                continue
+            r = hit(w)
+            if r:
+                yield r
             if time.time() - t0 > budget_s:
                 return
         while time.time() - t0 < budget_s:
             w = random_circuit(ctx.rng, maxN=20)
-            f, d = check_property(w)
-            if f:
-                yield w, d
+            r = hit(w)
+            if r:
+                yield r
 
     def oracle_always(self, ctx):
         """Sweep of the property on the real code; one witness (the first = smallest) per kind of failure."""
@@ -462,16 +890,19 @@ class C07(PropertyCheck):
             yield from self._sweep(11, ("CNOT",))
             yield from self._sweep(5, HANDLED)
             yield from self._sweep(9, ("SWAPalpha",))
+            yield from self._sweep_multi(7, 5)
             for _ in range(150):
                 yield random_circuit(ctx.rng, maxN=9)
 
         for w in stream():
+            if not self._in_theorem_class(w):
+                continue
             f, d = check_property(w)
             if f:
-                kind = re.sub(r"\d+", "#", d)[:70]
+                kind = re.sub(r"\d+", "#", re.sub(r"^call \d+ of \d+ [^:]*: ", "", d))[:70]
                 if kind not in seen:
                     seen.add(kind)
-                    yield w, d
+                    yield reproducible(w, len(CALLS), budget=8), d
 
 
 CHECK = C07()
